@@ -61,6 +61,8 @@ def h_dest(ctx, mode, prefix, how):
     busy = not sc.rig.idle
     tid = sc.rig.h.transaction_id
     file_there = RESOLVED in fs.files
+    # the cancel may arrive together with a timer expiry
+    w.tick(ctx.int("dt_cancel", 0, 2))
     if how in ("own", "other"):
         o = sc.cancel(None if how == "own" else TransactionId(sc.ids.src, sc.ids.other_seq))
         hdst.end_if_other_property(ctx, o)
@@ -184,7 +186,7 @@ def plan(tier):
     specs = []
     for mode in ("ack", "unack"):
         for pre in DEST_PREFIXES:
-            if mode == "unack" and pre in ("fd_first", "eof_missing"):
+            if mode == "unack" and pre in ("fd_first",):
                 continue
             if mode == "unack" and pre == "md_eof_complete":
                 continue
@@ -209,7 +211,7 @@ def plan(tier):
 
 
 BOUNDS = {
-    "quick": "receiver: 7 canonical prefixes (idle, after Metadata, after 1-2 File Data PDUs with symbolic offset/length, waiting for missing data after EOF, File Data first, complete file + EOF) x {cancel own id, cancel other id, EOF(cancel) with symbolic size and 4 condition codes} x mode x closure x disposition x NAK mode; sender: 9 canonical prefixes x {own id, other id} x mode x closure, file of at most 3 segments with symbolic size",
+    "quick": "receiver: 7 canonical prefixes (idle, after Metadata, after 1-2 File Data PDUs with symbolic offset/length, waiting for missing data after EOF (acknowledged) / check-limit step (unacknowledged), File Data first, complete file + EOF); the cancel may coincide with a timer expiry (clock advance 0..2 before it) x {cancel own id, cancel other id, EOF(cancel) with symbolic size and 4 condition codes} x mode x closure x disposition x NAK mode; sender: 9 canonical prefixes x {own id, other id} x mode x closure, file of at most 3 segments with symbolic size",
     "thorough": "same (the space is small); the thorough tier adds the cross-solver pass",
 }
 OUTSIDE = "a second cancel request on an already cancelled transaction (the sender abandons); cancel requests between two arbitrary (non-canonical) histories; more than 3 segments; modular checksum over a prefix (decided for the native filestore in C09)"
